@@ -189,29 +189,51 @@ class SimSocket(Conn):
         data = self._client_wrote(bytes(data))
         self.peer.on_data(self, data)
 
-    def _next(self, n: int) -> bytes:
+    def _arrive(self) -> None:
+        """One more item of the peer's stream becomes visible to the client (one arrival per socket call)."""
+        while self._rx:
+            item = self._rx.pop(0)
+            if item[0] == "data":
+                if item[1]:
+                    self._head += item[1]
+                    return
+            elif item[0] == "eof":
+                self._eof = True
+                return
+            elif item[0] == "rst":
+                self._eof = True
+                self._rst = True
+                self.world.log("net.rst", self.cid)
+                return
+            elif item[0] == "stall":
+                return
+
+    def _next(self, n: int, peek: bool = False) -> bytes:
         self.recv_calls += 1
         if self.closed_by_client:
             raise OSError(9, "Bad file descriptor")
         if n <= 0:
             return b""
-        if not self._head:
-            while self._rx:
-                item = self._rx.pop(0)
-                if item[0] == "data":
-                    if item[1]:
-                        self._head = item[1]
-                        break
-                elif item[0] == "eof":
-                    self._eof = True
-                    break
-                elif item[0] == "rst":
-                    self._eof = True
-                    self.world.log("net.rst", self.cid)
-                    raise ConnectionResetError(104, "Connection reset by peer")
-                elif item[0] == "stall":
-                    break
+        before = len(self._head)
+        if not self._head or peek:
+            # a plain read takes what has arrived, or waits for the next arrival; a MSG_PEEK read does not consume, so every
+            # call lets one more segment arrive (otherwise a peek loop could never see progress)
+            if not (self._eof and not self._rx):
+                self._arrive()
+        if getattr(self, "_rst", False) and not self._head:
+            raise ConnectionResetError(104, "Connection reset by peer")
         if self._head:
+            if peek:
+                out = self._head[:n]
+                if len(self._head) == before and len(out) < n:
+                    # no progress: the same short prefix again. After EOF that is a spin; on an open, silent connection a wait.
+                    self._stalled_peeks = getattr(self, "_stalled_peeks", 0) + 1
+                    if self._stalled_peeks > SPIN_LIMIT:
+                        if self._eof:
+                            self.stats["reads_after_eof"] += self._stalled_peeks
+                            raise Spin(f"{self._stalled_peeks} MSG_PEEK reads without progress after EOF on connection {self.cid}")
+                        raise Blocks(f"peek loop on connection {self.cid} can never see more data")
+                return out
             out, self._head = self._head[:n], self._head[n:]
             return out
         if self._eof:
@@ -223,13 +245,39 @@ class SimSocket(Conn):
         # nothing buffered, connection open, peer has nothing more to say
         raise Blocks(f"read on connection {self.cid} can never complete")
 
+    def _read(self, n: int, flags: int) -> bytes:
+        import socket as _s
+
+        if flags & _s.MSG_PEEK:
+            return self._next(n, peek=True)
+        try:
+            data = self._next(n)
+        except Blocks:
+            if self._timeout is not None:  # a socket with a timeout gives up instead of waiting forever
+                raise TimeoutError("timed out")
+            raise
+        if flags & _s.MSG_WAITALL and self._timeout is None:
+            # blocking socket: MSG_WAITALL returns the full amount unless the stream ends (with a timeout set Python puts the
+            # descriptor in non-blocking mode and the flag has no effect)
+            while len(data) < n and data:
+                try:
+                    more = self._next(n - len(data))
+                except (Blocks, ConnectionResetError):
+                    if data:
+                        break
+                    raise
+                if not more:
+                    break
+                data += more
+        return data
+
     def recv(self, n: int, flags: int = 0) -> bytes:
-        return self._next(n)
+        return self._read(n, flags)
 
     def recv_into(self, buf, nbytes: int = 0, flags: int = 0) -> int:
         view = memoryview(buf)
         n = nbytes or len(view)
-        data = self._next(n)
+        data = self._read(n, flags)
         view[: len(data)] = data
         return len(data)
 
